@@ -9,7 +9,7 @@ import z3
 
 from .values import (SymVal, CharStr, PyObj, PyList, SymSeq, PyDict, SymMap, PySet, SymSet,
                      ClassObj, BuiltinClass, EnumMember, FuncObj, BoundMethod, StaticMethod,
-                     PropertyObj, ModuleObj, Builtin, ExcObj, Opaque, Computed, SymMat, SymRowRef, _MISSING)
+                     PropertyObj, ModuleObj, Builtin, ExcObj, Opaque, Computed, SymMat, SymRowRef, Struct, _MISSING)
 from . import ops
 from .ops import to_term, mk, kind_of, is_num
 
@@ -1106,6 +1106,10 @@ class Interp:
                     raise Unsupported('atom compared with literal string')
                 return False
             return False
+        if isinstance(a, Struct) or isinstance(b, Struct):
+            if not (isinstance(a, Struct) and isinstance(b, Struct)) or a.tag != b.tag or len(a.fields) != len(b.fields):
+                return False
+            return self.seq_eq(a.fields, b.fields)
         if isinstance(a, CharStr) or isinstance(b, CharStr):
             return self.charstr_eq(a, b)
         if isinstance(a, PyList) and isinstance(b, PyList):
